@@ -14,14 +14,14 @@ from .values import (Sym, Opaque, NaN, NaNType, Undecided, ite, And, Or, Not,
 from .engine import Model, Namespace, PyObj, PyRaise, ExcValue
 
 R = z3.RealSort()
-f_sin = z3.Function('sin', R, R)
-f_cos = z3.Function('cos', R, R)
-f_exp = z3.Function('exp', R, R)
-f_log = z3.Function('log', R, R)
-f_sqrt = z3.Function('sqrt', R, R)
-f_asin = z3.Function('arcsin', R, R)
-f_atan2 = z3.Function('arctan2', R, R, R)
-PI = z3.Real('pi')
+f_sin = z3.Function('u_sin', R, R)
+f_cos = z3.Function('u_cos', R, R)
+f_exp = z3.Function('u_exp', R, R)
+f_log = z3.Function('u_log', R, R)
+f_sqrt = z3.Function('u_sqrt', R, R)
+f_asin = z3.Function('u_arcsin', R, R)
+f_atan2 = z3.Function('u_arctan2', R, R, R)
+PI = z3.Real('pi_c')
 
 PI_AXIOM = z3.And(PI > z3.RealVal("3.1415926"), PI < z3.RealVal("3.1415927"))
 
@@ -122,6 +122,8 @@ def m_arcsin(ctx, x):
     r = f_asin(t)
     ctx.assume(z3.Implies(z3.And(t >= -1, t <= 1),
                           z3.And(r >= -PI / 2, r <= PI / 2, f_sin(r) == t, f_cos(r) >= 0,
+                                 (r >= 0) == (t >= 0), (r == 0) == (t == 0),
+                                 (r == PI / 2) == (t == 1), (r == -PI / 2) == (t == -1),
                                  f_sin(r) * f_sin(r) + f_cos(r) * f_cos(r) == 1)))
     return Sym(r, True)
 
@@ -136,6 +138,10 @@ def m_arctan2(ctx, y, x):
     # r in (-pi, pi];  (b, a) = h (cos r, sin r) with h = hypot >= 0
     ctx.assume(z3.And(r > -PI, r <= PI, h >= 0, h * h == a * a + b * b,
                       b == h * f_cos(r), a == h * f_sin(r),
+                      z3.Implies(a > 0, z3.And(r > 0, r < PI)), z3.Implies(a < 0, r < 0),
+                      z3.Implies(z3.And(a == 0, b >= 0), r == 0), z3.Implies(z3.And(a == 0, b < 0), r == PI),
+                      z3.Implies(b > 0, z3.And(r > -PI / 2, r < PI / 2)),
+                      z3.Implies(b < 0, z3.Or(r > PI / 2, r < -PI / 2)),
                       f_sin(r) * f_sin(r) + f_cos(r) * f_cos(r) == 1))
     return Sym(r, True)
 
